@@ -192,13 +192,14 @@ class Result(object):
     pass
 
 
-def compile_trees(trees, backend='json', genTexts=False, textFilter=None, order=None, symgen=None, codegen=None):
+def compile_trees(trees, backend='json', genTexts=False, textFilter=None, order=None, symgen=None, codegen=None,
+                  extra_symtab=None):
     """what MibCompiler.compile does with parsed trees: ONE symbol-table builder and ONE code generator are
     reused for all modules; symbol tables first (in `order`), then code generation.
     Returns Result with .symtab {module: table}, .info {module: MibInfo}, .ctx {module: context}, .syminfo"""
     install_jinja_capture()
     r = Result()
-    r.symtab = {}
+    r.symtab = dict(extra_symtab or {})
     r.syminfo = {}
     r.info = {}
     r.ctx = {}
@@ -231,3 +232,30 @@ def numeric_oid(symtab, module, name):
     g = _intermediate.IntermediateCodeGen()
     g.symbolTable = symtab
     return g.genNumericOid(symtab[module][name]['oid'])
+
+
+_CONST_TREES = {}
+
+
+def const_trees(key, build, dialect='smiV2'):
+    """trees of a constant module: parsed once, handed out as fresh deep copies (the generators mutate the
+    IMPORTS part of a tree); all of it untraced, since nothing in it is symbolic"""
+    import copy
+    with _untraced():
+        if key not in _CONST_TREES:
+            _CONST_TREES[key] = parse_tokens(build(), dialect)
+        return copy.deepcopy(_CONST_TREES[key])
+
+
+_CONST_SYMTAB = {}
+
+
+def const_symtab(key, build, dialect='smiV2'):
+    """symbol tables of constant modules (dependencies whose own code generation is not the subject):
+    built once by the real SymtableCodeGen, untraced; fresh deep copy per use"""
+    import copy
+    with _untraced():
+        if key not in _CONST_SYMTAB:
+            r = compile_trees(parse_tokens(build(), dialect), backend=None)
+            _CONST_SYMTAB[key] = r.symtab
+        return copy.deepcopy(_CONST_SYMTAB[key])
